@@ -317,6 +317,6 @@ theorem gen_defaults :
     `segmentLocationInfoG` in `Model/Morph.lean`) was written from has this AST (doc strings aside) -/
 theorem gen_pins :
     pin_get_ordered_segments_in_groups = "ef0448e201d598dc209b606a" ∧
-    pin_get_segment_location_info = "4880b93ef91761730ad1e120" := by decide
+    pin_get_segment_location_info = "03efb3811431c2aea0d4628f" := by decide
 
 end NmlVerif.Morph.C13Gen
